@@ -436,7 +436,8 @@ def run_tracker_checks(ctx, pid):
             lines.append('tracker %d %s %s' % (ordered, 'N' if ttl is None else ttl, ' '.join(ops)))
             meta.append((ordered, ttl, ops))
     # long random histories over more vessels and message types
-    pool2 = make_messages(rng, [111, 222, 333, 444, 555, 666], per=4)
+    # (MMSIs as the wire can carry them: the field has 30 bits, so ten-digit values up to 2^30 - 1 arrive too)
+    pool2 = make_messages(rng, [111, 222, 227006760, 999999999, 1000000001, 1073741823], per=4)
     for i in range(300 if ctx.tier == 'quick' else 6000):
         ordered = rng.random() < 0.5
         ttl = rng.choice([None, 2, 5, 10])
